@@ -34,11 +34,11 @@ func (node *ChildNode) Individual() *IndividualNode {
 
 	n := node.family.document.NodeByPointer(valueToPointer(node.value))
 
-	if IsNil(n) {
-		return nil
-	}
+	// The pointer may not exist, or it may point to something that is not an
+	// individual.
+	individual, _ := n.(*IndividualNode)
 
-	return n.(*IndividualNode)
+	return individual
 }
 
 func (node *ChildNode) Father() *HusbandNode {
